@@ -142,6 +142,10 @@ pub fn conformant_tag(kind: u32, key: u64, n: usize, sel: u32) -> Vec<u8> {
             let ty = (sel & 0xff) as u8;
             let mut body = w(key, 24, 8);
             body[21] = ty;
+            // bits per pixel: small, realistic values in 3 of 4 tags
+            if (sel >> 9) & 3 != 0 {
+                body[20] = [1u8, 2, 4, 8, 15, 16, 24, 32][((sel >> 11) & 7) as usize];
+            }
             match ty {
                 0 => {
                     body.extend_from_slice(&(n as u16).to_le_bytes());
@@ -169,7 +173,16 @@ pub fn conformant_tag(kind: u32, key: u64, n: usize, sel: u32) -> Vec<u8> {
         10 => tag(10, &w(key, 20, 8)),
         11 | 19 | 21 => tag(kind, &w(key, 4, 8)),
         12 | 20 => tag(kind, &w(key, 8, 8)),
-        13 => tag(13, &w(key, 8 + n, 8)),
+        13 => {
+            let mut body = w(key, 8 + n, 8);
+            // trailing zero bytes in the tables (they are content, not padding)
+            if sel & 4 != 0 {
+                for x in body.iter_mut().rev().take(3.min(n)) {
+                    *x = 0;
+                }
+            }
+            tag(13, &body)
+        }
         14 => {
             let mut body = w(key, 20, 8);
             if sel & 2 == 0 {
@@ -199,7 +212,15 @@ pub fn conformant_tag(kind: u32, key: u64, n: usize, sel: u32) -> Vec<u8> {
             }
             tag(15, &body)
         }
-        16 => tag(16, &w(key, n, 8)),
+        16 => {
+            let mut body = w(key, n, 8);
+            if sel & 4 != 0 {
+                for x in body.iter_mut().rev().take(2.min(n)) {
+                    *x = 0;
+                }
+            }
+            tag(16, &body)
+        }
         17 => {
             let d = [40usize, 48, 56, 64][(sel % 4) as usize];
             let mut body = w(key, 8 + n * d, 8);
@@ -217,7 +238,17 @@ pub fn conformant_hdr_tag(kind: u32, key: u64, n: usize, sel: u32) -> Vec<u8> {
     let flags = (sel & 1) as u16;
     match kind {
         0 => hdr_tag(0, 0, &[]),
-        1 => hdr_tag(1, flags, &w(key, 4 * n, 8)),
+        1 => {
+            let mut body = w(key, 4 * n, 8);
+            // request ids that are 0 (= the end tag's id), first and/or last
+            if n > 0 && sel & 4 != 0 {
+                put32(&mut body, 4 * (n - 1), 0);
+            }
+            if n > 0 && sel & 8 != 0 {
+                put32(&mut body, 0, 0);
+            }
+            hdr_tag(1, flags, &body)
+        }
         2 => hdr_tag(2, flags, &w(key, 16, 8)),
         3 | 8 | 9 => hdr_tag(kind as u16, flags, &w(key, 4, 8)),
         4 => hdr_tag(4, flags, &((sel >> 1) & 1).to_le_bytes()),
